@@ -148,11 +148,29 @@ NoName  == [base |-> None, sub |-> None, x |-> None, procs |-> None]
 \* removal, no label (FALSE).  The driver asks the code which one it implements; either
 \* way every other rule of this module must hold.
 Has(v) == v # None /\ (v # 0 \/ EmptyNameValueIsLabel)
-NameLabels(n) ==
+NameLabels4(n) ==
   LET ks == {"name"} \cup (IF Has(n.sub) THEN {"sub1"} ELSE {})
                      \cup (IF Has(n.x) THEN {"x"} ELSE {})
                      \cup (IF n.procs # None THEN {"gomaxprocs"} ELSE {})
   IN [k \in ks |-> CASE k = "name" -> n.base [] k = "sub1" -> n.sub [] k = "x" -> n.x [] k = "gomaxprocs" -> n.procs]
+
+\* Names of any depth (recorded traces only; the model's names have the two parts above): the
+\* optional field "more" lists the parts that follow sub and x, each <<key, value>> with key ""
+\* for an unnamed part.  An unnamed part is labelled subN, N = its position among ALL the parts
+\* of the name counted from 1, in decimal (sub1, ..., sub9, sub10, ...); of two parts with the
+\* same key the later one wins.
+MoreOf(n) == IF "more" \in DOMAIN n THEN n.more ELSE <<>>
+PartKey(n, i) ==
+  LET p == MoreOf(n)[i] IN
+  IF p[1] = "" THEN "sub" \o ToString((IF n.sub # None THEN 1 ELSE 0) + (IF n.x # None THEN 1 ELSE 0) + i) ELSE p[1]
+NameLabels(n) ==
+  LET b    == NameLabels4(n)
+      more == MoreOf(n)
+      idx  == {i \in 1..Len(more) : Has(more[i][2])}
+      ks   == {PartKey(n, i) : i \in idx}
+      last(k) == CHOOSE i \in idx : PartKey(n, i) = k /\ \A j \in idx : PartKey(n, j) = k => j <= i
+  IN IF more = <<>> THEN b
+     ELSE [k \in DOMAIN b \cup ks |-> IF k \in ks THEN more[last(k)][2] ELSE b[k]]
 
 SetL(k, v)   == [t |-> "set",   k |-> k,  v |-> v, name |-> NoName, m |-> 0]
 DelL(k)      == [t |-> "del",   k |-> k,  v |-> 0, name |-> NoName, m |-> 0]
